@@ -79,6 +79,82 @@ MuskFrom(cs, t, prevIn, prevOut) ==
          IN <<o>> \o MuskFrom(cs, t + 1, tot, o)
 MuskOut(cs) == MuskFrom(cs, 1, cs.states[2], cs.states[3])
 
+\* ---- constituent transport / trapping models with rational kernels (C12) -------------------------------
+\* every model is a step function  (t, state sequence) -> [st : state sequence, outs : sequence, flushed]
+\* iterated over the series; `flushed` is the mass discarded by the documented minimum-volume flush
+MINIMUM_VOLUME == Q(1, 100)
+
+\* LumpedConstituentRouting: params X, pointInput, DeltaT; inputs inflowLoad, lateralLoad, outflow, storage
+LumpedStep(sm, il, ll, q, v, pointInput, dt) ==
+    LET wm == Add(sm, Mul(Add(Add(il, ll), pointInput), dt))
+        wv == Add(Mul(q, dt), v)
+    IN IF Lt(wv, MINIMUM_VOLUME) THEN [st |-> <<Zero>>, outs |-> <<Zero, Zero>>, flushed |-> wm]
+       ELSE LET conc == Div(wm, wv) IN [st |-> <<Mul(conc, v)>>, outs |-> <<Mul(conc, q), pointInput>>, flushed |-> Zero]
+
+\* ConstituentDecay: params X, halfLife, DeltaT (DeltaT an integer multiple of halfLife, so 2^-(DeltaT/halfLife)
+\* is exact); inputs inflowLoad, lateralLoad, inflow, outflow, storage; outputs decayedLoad, outflowLoad
+RECURSIVE Pow2(_)
+Pow2(n) == IF n = 0 THEN 1 ELSE 2 * Pow2(n - 1)
+DecayFraction(hl, dt) == IF IsZero(hl) THEN One ELSE Q(1, Pow2(Div(dt, hl)[1]))
+DecayStep(sm, il, ll, q, v, hl, dt) ==
+    LET fr == DecayFraction(hl, dt)
+        decayed == IF IsZero(hl) THEN Zero ELSE Mul(Sub(One, fr), sm)
+        sm1 == Mul(sm, fr)
+        wm == Add(sm1, Add(Mul(il, dt), Mul(ll, dt)))
+        wv == Add(Mul(q, dt), v)
+    IN IF Lt(wv, MINIMUM_VOLUME) THEN [st |-> <<Zero>>, outs |-> <<Div(decayed, dt), Zero>>, flushed |-> wm]
+       ELSE LET ol == Mul(Div(wm, wv), q) IN
+            [st |-> <<Sub(wm, Mul(ol, dt))>>, outs |-> <<Div(decayed, dt), ol>>, flushed |-> Zero]
+
+\* InstreamParticulateNutrient: params particulateNutrientConcentration, soilPercentFine, durationInSeconds;
+\* inputs incomingMassUpstream, incomingMassLateral, reachVolume, outflow, streambankErosion, lateralSediment,
+\* floodplainDepositionFraction, channelDepositionFraction; states instreamStoredMass, channelStoredMass;
+\* outputs loadDeposited (a mass), loadFromStreambank, loadDownstream, loadToFloodplain
+ParticulateStep(st, up, lat, v, q, sbe, latSed, fpf, chf, conc, pcFine, dt) ==
+    LET inUp == Mul(up, dt)
+        inLat == Mul(lat, dt)
+        sbp == Mul(sbe, conc)
+        sbpMass == Mul(sbp, dt)
+        total == Add(Add(Add(st[1], inUp), inLat), sbpMass)
+        dep0 == Add(st[1], inUp)
+        dep1 == IF Lt(Zero, latSed) THEN Add(dep0, inLat) ELSE dep0
+        dep2 == Add(MaxR(dep1, Zero), Mul(sbpMass, Div(pcFine, R(100))))
+        fp == Mul(MinR(MaxR(fpf, Zero), One), dep2)
+        bed == IF Le(Zero, chf) THEN MinR(Mul(chf, dep2), Sub(dep2, fp)) ELSE Neg(Mul(Neg(chf), dep2))
+        channel == Add(st[2], bed)
+        left == Sub(total, Add(fp, bed))
+        wv == Add(Mul(q, dt), v)
+    IN IF Lt(wv, MINIMUM_VOLUME)
+       THEN [st |-> <<Zero, channel>>, outs |-> <<Zero, sbp, Zero, Div(fp, dt)>>, flushed |-> left]
+       ELSE LET c2 == Div(left, wv) IN
+            [st |-> <<Mul(c2, v), channel>>, outs |-> <<bed, sbp, Mul(c2, q), Div(fp, dt)>>, flushed |-> Zero]
+
+ConstituentStep(cs, t, st) ==
+    LET p == cs.params  in == cs.inputs  m == cs.model IN
+    CASE m = "LumpedConstituentRouting" -> LumpedStep(st[1], in[1][t], in[2][t], in[3][t], in[4][t], p[2], p[3])
+      [] m = "ConstituentDecay" -> DecayStep(st[1], in[1][t], in[2][t], in[4][t], in[5][t], p[2], p[3])
+      [] m = "StorageDissolvedDecay" ->      \* decay disabled: lumped transport without lateral load or point source
+            LET r == LumpedStep(st[1], in[1][t], Zero, in[3][t], in[4][t], Zero, p[1]) IN
+            [st |-> r.st, outs |-> <<Zero, r.outs[1]>>, flushed |-> r.flushed]
+      [] m = "StorageTrapAll" ->             \* everything that arrives (and what was stored) is trapped
+            [st |-> <<Zero>>, outs |-> <<Add(in[1][t], IF t = 1 THEN cs.states[1] ELSE Zero), Zero>>, flushed |-> Zero]
+      [] m = "InstreamParticulateNutrient" ->
+            ParticulateStep(st, in[1][t], in[2][t], in[3][t], in[4][t], in[5][t], in[6][t], in[7][t], in[8][t], p[1], p[2], p[3])
+      [] m = "InstreamCoarseSediment" ->     \* param durationInSeconds; states channelStore, totalStoredMass
+            LET incoming == Mul(Add(Add(in[1][t], in[2][t]), in[3][t]), p[1]) IN
+            [st |-> <<Add(st[1], Add(st[2], incoming)), Zero>>, outs |-> <<Zero>>, flushed |-> Zero]
+
+RECURSIVE ConstituentIter(_, _, _, _)
+ConstituentIter(cs, t, st, acc) ==
+    IF t > Len(cs.inputs[1]) THEN [st |-> st, rows |-> acc.rows, flushed |-> acc.flushed]
+    ELSE LET r == ConstituentStep(cs, t, st) IN
+         ConstituentIter(cs, t + 1, r.st, [rows |-> Append(acc.rows, r.outs), flushed |-> Add(acc.flushed, r.flushed)])
+ConstituentRun(cs) == ConstituentIter(cs, 1, cs.states, [rows |-> <<>>, flushed |-> Zero])
+\* per-timestep output tuples -> one series per output variable
+Transpose(rows) == [j \in 1..Len(rows[1]) |-> [t \in 1..Len(rows) |-> rows[t][j]]]
+ConstituentModels == {"LumpedConstituentRouting", "ConstituentDecay", "StorageDissolvedDecay", "StorageTrapAll", "InstreamCoarseSediment",
+                      "InstreamParticulateNutrient"}
+
 \* ---- the kernels: Out(case) = sequence (per output variable) of series ----
 T(cs) == Len(cs.inputs[1])
 Series(cs, f(_)) == [t \in 1..T(cs) |-> f(t)]
@@ -122,6 +198,7 @@ Out(cs) ==
             << [t \in 1..T(cs) |-> IF t <= k THEN cs.states[t] ELSE in[1][t - k]] >>
       [] m = "Muskingum" ->                  \* params K, X, DeltaT; states S, prevInflow (total), prevOutflow
             << MuskOut(cs) >>
+      [] m \in ConstituentModels -> Transpose(ConstituentRun(cs).rows)
 
 \* final states (only for the two stateful models here)
 St(cs) ==
@@ -130,6 +207,7 @@ St(cs) ==
       [] cs.model = "Muskingum" ->
             LET o == MuskOut(cs)  n == Len(o) IN
             << cs.states[1], Add(cs.inputs[1][n], cs.inputs[2][n]), o[n] >>
+      [] cs.model \in ConstituentModels -> ConstituentRun(cs).st
       [] OTHER -> <<>>
 
 ---------------------------------------------------------------------------
@@ -137,6 +215,9 @@ St(cs) ==
 Vals == IF Grid = "small" THEN {R(0), R(2), R(4)} ELSE {R(0), R(1), R(3), R(8), Q(1, 2)}
 ValsS == Vals \cup {R(-2)}                          \* including a negative value (negative demand)
 Fracs == {R(0), Q(1, 4), Q(1, 2), Q(3, 4), R(1)}
+Loads == {R(0), R(2), R(4)}
+Flows == {R(0), Q(1, 2), R(2)}
+Vols == {R(0), R(10)}                     \* incl. an empty store (below the minimum volume when there is no outflow)
 Scales == {R(0), Q(1, 2), R(2), R(3)}
 SeriesOf(S, n) == [1..n -> S]
 TT == 2
@@ -162,6 +243,30 @@ Cases(m) ==
             {[model |-> m, params |-> <<e, d>>, inputs |-> <<s, u>>, states |-> <<>>] : e \in {R(0), R(2), R(50)}, d \in {R(0), R(3)}, s \in SeriesOf(Vals, TT), u \in SeriesOf(Vals, TT)}
       [] m = "FixedConcentration" -> {[model |-> m, params |-> <<e>>, inputs |-> <<s>>, states |-> <<>>] : e \in {R(0), R(2), R(50), Q(1, 2)}, s \in SeriesOf(Vals, TT)}
       [] m = "PassLoadIfFlow" -> {[model |-> m, params |-> <<f>>, inputs |-> <<s, u>>, states |-> <<>>] : f \in Scales, s \in SeriesOf(Vals, TT), u \in SeriesOf(Vals, TT)}
+      [] m = "LumpedConstituentRouting" ->
+            {[model |-> m, params |-> <<R(0), pi, dt>>, inputs |-> <<a, b, q, v>>, states |-> <<s0>>] :
+               pi \in {R(0), R(1)}, dt \in {R(1), R(4)}, a \in SeriesOf(Loads, TT), b \in SeriesOf({R(0), R(2)}, TT),
+               q \in SeriesOf(Flows, TT), v \in SeriesOf(Vols, TT), s0 \in {R(0), R(6)}}
+      [] m = "ConstituentDecay" ->
+            {[model |-> m, params |-> <<R(0), hl, R(4)>>, inputs |-> <<a, b, qi, q, v>>, states |-> <<s0>>] :
+               hl \in {R(0), R(4), R(2)}, a \in SeriesOf(Loads, TT), b \in SeriesOf({R(0)}, TT), qi \in SeriesOf({R(1)}, TT),
+               q \in SeriesOf(Flows, TT), v \in SeriesOf(Vols, TT), s0 \in {R(0), R(8)}}
+      [] m = "StorageDissolvedDecay" ->      \* doStorageDecay = 0 (the decay-disabled clause of C12)
+            {[model |-> m, params |-> <<dt, R(0), R(2), R(5), R(1)>>, inputs |-> <<a, qi, q, v>>, states |-> <<s0>>] :
+               dt \in {R(1), R(4)}, a \in SeriesOf(Loads, TT), qi \in SeriesOf({R(1)}, TT),
+               q \in SeriesOf(Flows, TT), v \in SeriesOf(Vols, TT), s0 \in {R(0), R(6)}}
+      [] m = "StorageTrapAll" ->
+            {[model |-> m, params |-> <<>>, inputs |-> <<a, qi, q, v>>, states |-> <<s0>>] :
+               a \in SeriesOf(Loads, TT), qi \in SeriesOf({R(1)}, TT), q \in SeriesOf({R(2)}, TT), v \in SeriesOf({R(10)}, TT), s0 \in {R(0), R(6)}}
+      [] m = "InstreamCoarseSediment" ->
+            {[model |-> m, params |-> <<dt>>, inputs |-> <<a, b, cc>>, states |-> <<s0, s1>>] :
+               dt \in {R(1), R(4)}, a \in SeriesOf(Loads, TT), b \in SeriesOf({R(0), R(2)}, TT), cc \in SeriesOf({R(0), R(1)}, TT),
+               s0 \in {R(0), R(6)}, s1 \in {R(0), R(3)}}
+      [] m = "InstreamParticulateNutrient" ->  \* one timestep per case, all branches: lateral sediment yes/no, deposition / resuspension, flush
+            {[model |-> m, params |-> <<pc, R(50), dt>>, inputs |-> <<<<up>>, <<lat>>, <<v>>, <<q>>, <<sbe>>, <<ls>>, <<fpf>>, <<chf>>>>, states |-> <<s0, s1>>] :
+               pc \in {R(0), Q(1, 2)}, dt \in {R(1), R(4)}, up \in {R(0), R(4)}, lat \in {R(0), R(2)}, v \in Vols, q \in {R(0), R(2)},
+               sbe \in {R(0), R(4)}, ls \in {R(0), R(1)}, fpf \in {R(0), Q(1, 2), R(2)}, chf \in {Q(-1, 4), R(0), Q(1, 2), R(1)},
+               s0 \in {R(0), R(6)}, s1 \in {R(8)}}
       [] m = "Lag" -> UNION {{[model |-> m, params |-> <<R(k)>>, inputs |-> <<s>>, states |-> b] : s \in SeriesOf(Vals, n), b \in SeriesOf({R(1), R(7)}, k)} :
                               k \in 0..(TT + 2), n \in 1..TT}
       [] m = "Muskingum" -> {[model |-> m, params |-> p, inputs |-> <<s, u>>, states |-> <<R(0), pi, po>>] :
@@ -196,6 +301,38 @@ ConcentrationLinear == c.model = "FixedConcentration" => AllT(LAMBDA t : Eq(Mul(
 \* the two concentration generators agree (kg/s = m3/s * mg/L * 1e-3)
 GeneratorsAgree == c.model = "SednetDissolvedNutrientGeneration" =>
                      AllT(LAMBDA t : Eq(O[1][t], Mul(Mul(In[1][t], c.params[1]), MG_L_TO_KG_M3)))
+\* C12: mass entering + initially stored = mass leaving downstream + trapped/decayed/deposited + finally stored
+\* (+ what the documented minimum-volume flush discards); nothing negative for non-negative inputs
+DT == CASE c.model = "LumpedConstituentRouting" -> c.params[3] [] c.model = "ConstituentDecay" -> c.params[3]
+        [] c.model = "StorageDissolvedDecay" -> c.params[1] [] c.model = "InstreamCoarseSediment" -> c.params[1]
+        [] c.model = "InstreamParticulateNutrient" -> c.params[3] [] OTHER -> One
+MassIn == CASE c.model = "LumpedConstituentRouting" -> Mul(Add(Add(SumR(In[1]), SumR(In[2])), Mul(c.params[2], R(T(c)))), DT)
+            [] c.model = "ConstituentDecay" -> Mul(Add(SumR(In[1]), SumR(In[2])), DT)
+            [] c.model = "StorageDissolvedDecay" -> Mul(SumR(In[1]), DT)
+            [] c.model = "StorageTrapAll" -> SumR(In[1])
+            [] c.model = "InstreamCoarseSediment" -> Mul(Add(Add(SumR(In[1]), SumR(In[2])), SumR(In[3])), DT)
+            \* upstream + lateral + streambank erosion x nutrient concentration
+            [] c.model = "InstreamParticulateNutrient" -> Mul(Add(Add(SumR(In[1]), SumR(In[2])), Mul(SumR(In[5]), c.params[1])), DT)
+MassOut == CASE c.model = "LumpedConstituentRouting" -> Mul(SumR(O[1]), DT)                       \* outflowLoad
+             [] c.model = "ConstituentDecay" -> Mul(Add(SumR(O[1]), SumR(O[2])), DT)               \* decayed + outflow
+             [] c.model = "StorageDissolvedDecay" -> Mul(SumR(O[2]), DT)                           \* outflowMass
+             [] c.model = "StorageTrapAll" -> Add(SumR(O[1]), SumR(O[2]))                          \* trapped + outflow
+             [] c.model = "InstreamCoarseSediment" -> Mul(SumR(O[1]), DT)
+             \* downstream + floodplain (deposition on the bed is the change of the channel store, a state)
+             [] c.model = "InstreamParticulateNutrient" -> Mul(Add(SumR(O[3]), SumR(O[4])), DT)
+MassConserved == c.model \in ConstituentModels =>
+    Eq(Add(MassIn, SumR(c.states)), Add(Add(MassOut, SumR(St(c))), ConstituentRun(c).flushed))
+AllInputsNonNegative == \A j \in 1..Len(In) : \A t \in 1..T(c) : Le(Zero, In[j][t])
+ConstituentNonNegative == (c.model \in ConstituentModels /\ AllInputsNonNegative) =>
+    /\ \A k \in 1..Len(O) : \A t \in 1..T(c) : Le(Zero, O[k][t])
+    /\ \A k \in 1..Len(St(c)) : Le(Zero, St(c)[k])
+\* the only permitted loss: the flush when the water volume is below the minimum-volume threshold
+FlushOnlyWhenEmpty == c.model \in {"LumpedConstituentRouting", "ConstituentDecay", "StorageDissolvedDecay"} =>
+    (~IsZero(ConstituentRun(c).flushed) =>
+        \E t \in 1..T(c) : LET q == IF c.model = "ConstituentDecay" THEN In[4][t] ELSE In[3][t]
+                                 v == IF c.model = "ConstituentDecay" THEN In[5][t] ELSE In[4][t]
+                             IN Lt(Add(Mul(q, DT), v), MINIMUM_VOLUME))
+
 \* C11 Lag: a pure delay line that loses nothing
 LagConserves == c.model = "Lag" => Eq(Add(SumR(O[1]), SumR(St(c))), Add(SumR(c.states), SumR(In[1])))
 LagDelays == c.model = "Lag" => LET k == c.params[1][1] IN
